@@ -16,6 +16,7 @@ Driver for C04.  Requests (ids are `mid:rid`, lists comma separated, `-` = empty
   `lessorequal <cap> <table> <minBlockIDs> <lid> <id>` -> `ok <0|1>`      sealedIDsIndex.LessOrEqual
   `idstr.enc <mid> <rid>`                     -> `ok <string bytes, hex>` seq.ID.String
   `idstr.dec <string bytes, hex>`             -> `ok <mid> <rid>` | `err` seq.FromString
+  `fetchhop <mid:rid:hinthex,...|->`          -> `ok <mid:rid:hinthex,...>` | `err`   storeapi.extractIDs (Ingestor.makeFetchReq ids)
   `docpos.pack <bits> <block> <off>`          -> `ok <pos>`               seq.PackDocPos
   `docpos.unpack <bits> <pos>`                -> `ok <block> <off>`       DocPos.Unpack
   `groupoffsets <bits> <positions>`           -> `ok <block>/<offs +>/<idx +>;...`   seq.GroupDocsOffsets
@@ -131,6 +132,21 @@ def step (line : String) : String :=
     | some bs =>
       match SV.IDStr.fromString bs with
       | some (m, r) => s!"ok {m} {r}"
+      | none => "err"
+    | none => "bad-op"
+  | ["fetchhop", ids] =>
+    -- ids: `mid:rid:hinthex` separated by `,` (`-` = no ids); answer: what the store's extractIDs reads
+    let parse (e : String) : Option SV.IDStr.IDSrc :=
+      match e.splitOn ":" with
+      | [m, r, h] =>
+        match m.toNat?, r.toNat?, (if h = "" then some [] else hex? h) with
+        | some m, some r, some h => some ⟨m, r, h⟩
+        | _, _, _ => none
+      | _ => none
+    match (if ids = "-" then some [] else (splitList ids).mapM parse) with
+    | some l =>
+      match SV.IDStr.extractIDs (SV.IDStr.makeFetchReq l) with
+      | some out => s!"ok {fmtList (fun (i : SV.IDStr.IDSrc) => s!"{i.mid}:{i.rid}:{fmtHex i.hint}") out}"
       | none => "err"
     | none => "bad-op"
   | ["docpos.pack", bits, b, o] =>
